@@ -506,7 +506,7 @@ CH_TWO = b'DATA ' + hexl(b'ctx1 7')
 
 ALPHA_QUICK = [b'OK 1234deadbeef', b'OK zz', b'OK', b'REJECTED EXTERNAL DBUS_COOKIE_SHA1 ANONYMOUS',
                CH_GOOD, b'DATA zz', b'ERROR', b'AGREE_UNIX_FD', b'FOO bar', b'']
-ALPHA_MORE = [b'DATA', b'REJECTED', b'ERROR no', CH_NOID, b'OK  12AB ']
+ALPHA_MORE = [b'DATA', b'REJECTED', b'ERROR no', CH_NOID, b'OK  12AB ', b'OK 12ab 34cd', b'OK 01 23 45', b'OK 0123\t4567']  # the last three: hex pairs with white space BETWEEN them are not a GUID
 WORDS = [b'OK', b'REJECTED', b'DATA', b'ERROR', b'AGREE_UNIX_FD', b'BEGIN', b'AUTH', b'ok', b'OK\t', b'', b'CANCEL',
          b'NEGOTIATE_UNIX_FD', b'OKAY', b'DATA\xc3\xa9', b'\xff\xfe']
 
